@@ -30,6 +30,12 @@ def ptrish(ty):
     return any(p in ty for p in PTRISH)
 
 
+def escaping(ty):
+    """Types through which a buffer pointer can leave a function: raw pointers, and references/slices (a tainted
+    reference can only have been made from a raw pointer - from_raw_parts / &*ptr - so its lifetime is unchecked)."""
+    return ptrish(ty) or ty.startswith("&")
+
+
 def base_local(body, defs, place, depth=0):
     """Underlying local of a reference chain (&x, use, reborrow)."""
     l = place[0]
@@ -139,7 +145,7 @@ def analyse_body(b, esc_fns):
                             taint[dl] = ("stale:" + cf, "result of closure %s, which returns a pointer obtained under a lock that has been released" % cf)
                             changed = True
             # result of a function known to leak a guard-derived pointer
-            if rname in esc_fns and dl not in taint and ptrish(dty):
+            if rname in esc_fns and dl not in taint and escaping(dty):
                 taint[dl] = ("stale:" + rname, "result of %s, which returns a pointer obtained under a guard it has already released" % rname)
                 changed = True
     return la, defs, taint
@@ -162,14 +168,14 @@ def _m1(bodies, res, collect_esc_only=False, esc_fns=None):
                 if not collect_esc_only:
                     res.inst(res_key, {"fn": b.path, "file": relfile(b.file), "pointer": "_%d: %s" % (l, b.mir["locals"][l]["ty"]), "derived": why})
         # returned?
-        if 0 in taint and ptrish(rty):
+        if 0 in taint and escaping(rty):
             tok, why = taint[0]
             if isinstance(tok, int):
                 found_esc[b.path] = why
                 if not collect_esc_only:
                     res.bad(b.path, "returns guard-derived pointer", relfile(b.file), b.line,
                             "returns %s derived under a MutexGuard (%s) after the guard is dropped: the caller dereferences it without the lock" % (rty, why))
-        if 0 in taint and ptrish(rty) and isinstance(taint[0][0], str):
+        if 0 in taint and escaping(rty) and isinstance(taint[0][0], str):
             found_esc[b.path] = taint[0][1]
         if collect_esc_only:
             continue
@@ -299,4 +305,4 @@ def canary(C):
     bodies = [b for b in C.all_bodies() if b.mir]
     m1 = RuleResult("C16.M1", "")
     rule_m1(bodies, m1)
-    return [{"rule": "C16.M1", "fired": [v.key for v in m1.violations], "expect_min": 3}]
+    return [{"rule": "C16.M1", "fired": [v.key for v in m1.violations], "expect_min": 5, "expect_absent": ["sum_locked", "read_locked"]}]
